@@ -102,6 +102,12 @@ func init() {
 		}
 		end := &wire.End{Code: code.code, CodeStr: code.str, Message: msg, Details: det}
 		call := &mxCall{Base: b, ReqMsgs: req, RespMsgs: resp[:min(pos, len(resp))], End: end, TrailersOnly: pos == 0, Lenient: true}
+		if pos == 0 && c.Choose("compressed-error", 2) == 1 {
+			// the backend compresses what carries its error (error body of a flat protocol,
+			// end-of-stream / trailer frame of an enveloped one) with a compression the request advertised
+			call.Accept, call.RespComp, call.CompressEnd = []string{"gzip"}, "auto", true
+			c.Attr("~error-compressed", "true")
+		}
 		if tp == vanguard.ProtocolGRPCWeb {
 			// the status travels in a trailer frame (not in the head) in one of the legal spellings of a header line
 			if sp := c.Choose("trailer-frame-spelling", 5); sp > 0 {
